@@ -397,7 +397,14 @@ class Encoder:
         op = ins.op
         if op in ("add", "sub", "mul", "udiv", "sdiv", "urem", "srem", "and", "or", "xor", "shl", "lshr", "ashr"):
             a = self.const(ins.ty, ins.args[0], env)
-            b = self.const(ins.ty, ins.args[1], env)
+            sh = ins.args[1].strip()
+            m = re.match(r"i(\d+)$", ins.ty)
+            if (self.width_map and op in ("shl", "lshr", "ashr") and m and int(m.group(1)) in self.width_map
+                    and re.match(r"\d+$", sh) and int(sh) == int(m.group(1)) - 1):
+                # a shift by (width - 1) isolates / replicates the sign bit: re-interpreted as (reduced width - 1)
+                b = Val(T.const_bv(self.width_map[int(m.group(1))] - 1, self.width_map[int(m.group(1))]))
+            else:
+                b = self.const(ins.ty, ins.args[1], env)
             env[ins.res] = self.int_binop(op, ins, a, b, guard)
             return
         if op in ("fadd", "fsub", "fmul", "fdiv"):
